@@ -246,21 +246,17 @@ def pipeline_case(ctx, drv, case, light=False):
     g = ask(drv, {"op": "geometry", "gr": gr, "gc": gc, "stepR": cp.frac_str(np.float32(cfg["step"][0])), "stepC": cp.frac_str(np.float32(cfg["step"][1])),
                   "sampR": cp.frac_str(samp_lib[0]), "sampC": cp.frac_str(samp_lib[1]), "R0": r0, "R1": r1, "padR": cfg["pad"][0], "padC": cfg["pad"][1]})
     ctx.count()
+    # (a disagreement never stops the case: everything downstream uses the library's own geometry, so the
+    #  property predicate is still evaluated and can exhibit a failing input)
     if g["pad"] != pad_used or g["shape"] != [H, W]:
-        ctx.disagree("geometry", case, {"pad": g["pad"], "shape": g["shape"]}, {"pad": pad_used, "shape": [H, W]}, "padding / object shape")
-        return
-    if H % 8 or W % 8:
-        ctx.pred_fail("obj-shape-multiple-of-8", "padded object shape is not a multiple of 8", case, observed=[H, W], required="multiple of 8")
+        ctx.disagree("geometry", case, {"pad": g["pad"], "shape": g["shape"]}, {"pad": pad_used, "shape": [H, W]}, "padding / object shape (model: multiple of 8)")
     mpos = np.array([[float(Fraction(a)), float(Fraction(b))] for a, b in g["positions"]])
     if cfg["dyadic"] and samp_lib == cfg["samp"]:
-        ok = np.array_equal(mpos.astype(np.float32), pos32)
         ctx.count()
-        if not ok:
+        if mpos.shape != pos32.shape or not np.array_equal(mpos.astype(np.float32), pos32):
             ctx.disagree("scan-positions-exact", case, mpos.tolist(), pos.tolist(), "dyadic geometry: positions must agree exactly")
-            return
     else:
-        if not corr(ctx, "scan-positions", case, mpos, pos, 1e-5):
-            return
+        corr(ctx, "scan-positions", case, mpos, pos, 1e-5)
     # ---- 2. patch indices / fractional positions: exact integers on the library's own positions
     posq = [[cp.frac_str(a), cp.frac_str(b)] for a, b in pos32.tolist()]
     mi = ask(drv, {"op": "indices", "positions": posq, "R0": r0, "R1": r1, "H": H, "W": W})
@@ -272,19 +268,9 @@ def pipeline_case(ctx, drv, case, light=False):
         bad = int(np.argmax((midx != lib_idx).reshape(n, -1).any(axis=1))) if midx.shape == lib_idx.shape else -1
         ctx.disagree("patch-indices", case, {"position": bad, "idx": midx[bad].tolist() if bad >= 0 else list(midx.shape)},
                      {"position": bad, "idx": lib_idx[bad].tolist() if bad >= 0 else list(lib_idx.shape)}, "flat patch indices (exact)")
-        return
     mfrac = np.array([[float(Fraction(m["frac"][0])), float(Fraction(m["frac"][1]))] for m in mi])
     if not np.array_equal(mfrac, lib_frac):
         ctx.disagree("fractional-positions", case, mfrac.tolist(), lib_frac.tolist(), "pos - round(pos) (exact)")
-        return
-    # predicate on the indices (independent oracle): every patch is the periodic window around round(pos), FFT order
-    rp = np.round(pos)
-    for k in (0, n - 1, n // 2):
-        rows = (int(rp[k, 0]) + np.fft.fftfreq(r0, 1 / r0).astype(int)) % H
-        cols = (int(rp[k, 1]) + np.fft.fftfreq(r1, 1 / r1).astype(int)) % W
-        if not np.array_equal(lib_idx[k], rows[:, None] * W + cols[None, :]):
-            ctx.pred_fail(f"patch-index-window:{psig(r0, r1)}", "patch indices are not the periodic FFT-ordered window around round(position)", case,
-                          observed=lib_idx[k].tolist(), required=(rows[:, None] * W + cols[None, :]).tolist())
     ties = int(np.sum(np.abs(np.abs(pos - np.floor(pos)) - 0.5) < 1e-9))
     ctx.dist[f"positions.with_half_ties={'yes' if ties else 'no'}"] += 1
 
@@ -312,7 +298,6 @@ def pipeline_case(ctx, drv, case, light=False):
     pix = mean_I / (r0 * r1)
     if not np.array_equal(p.dset.scan_positions_px.detach().numpy(), pos32) or not np.array_equal(p.dset.patch_indices.numpy(), lib_idx):
         ctx.disagree("geometry-stable", case, "same geometry as the dummy run", "differs", "positions / indices depend on the intensities")
-        return
     # 4a. preprocessing correspondence
     data32 = data.astype(np.float32).astype(np.float64)
     mp = ask(drv, {"op": "preprocess", "patterns": [enc_rows(d) for d in data32], "fit": cfg["com"], "R0": r0, "R1": r1})
@@ -330,15 +315,11 @@ def pipeline_case(ctx, drv, case, light=False):
     mints = np.array([dec_rows(j) for j in mp["intensities"]])
     corr(ctx, f"centred-intensities[{cfg['com']}]", case, mints / pix, pd.centered_intensities.numpy().astype(np.float64) / pix, TOL32)
     # normalisation clause: the library fixes the probe intensity to the mean pattern intensity
-    ctx.count()
-    ctx.stat_max("pred_reldist[mean intensity = sum|probe|^2]", abs(mean_I / tot - 1))
-    if abs(mean_I / tot - 1) > 1e-5:
-        ctx.pred_fail("mean-intensity-normalisation", "mean diffraction intensity != total probe intensity for a unit-amplitude object", case,
-                      observed=mean_I, required=tot)
+    # normalisation (theorem mean_intensity_eq_probe_intensity): mean pattern intensity = total probe intensity, and the
+    # library rescales its initial probe to it (set_initial_probe/_apply_weights) — correspondence streams, not predicates
+    corr(ctx, "mean-intensity=sum|probe|^2", case, np.array([1.0]), np.array([mean_I / tot]), 1e-5, note="library mean_diffraction_intensity / total ground-truth probe intensity")
     p_init = float(np.sum(np.abs(p.probe_model.probe.detach().numpy().astype(np.complex128)) ** 2))
-    ctx.stat_max("pred_reldist[library initial probe intensity = mean intensity]", abs(p_init / mean_I - 1))
-    if abs(p_init / mean_I - 1) > 1e-4:
-        ctx.pred_fail("probe-rescaling", "set_initial_probe does not scale the probe to the mean pattern intensity", case, observed=p_init, required=mean_I)
+    corr(ctx, "probe-rescaling", case, np.array([1.0]), np.array([p_init / mean_I]), 1e-4, note="total intensity of the library's initial probe / mean_diffraction_intensity")
     applicable = True
     if cfg["com"] == "constant":
         off = float(np.max(np.abs(com_fit - centre)))
@@ -355,7 +336,6 @@ def pipeline_case(ctx, drv, case, light=False):
     ctx.stat_max("pred_reldist[probe hard constraint = identity on orthogonal modes]", dprobe)
     if dprobe > 1e-4:
         ctx.disagree("probe-constraint-identity", case, "installed probe", f"changed by {dprobe:.3g}", "Gram-Schmidt moved an orthogonal ground-truth probe")
-        return
     lib_obj = p.obj_model.obj.detach().numpy()
     if cfg["obj_type"] == "potential":
         t_in = {"kind": "re", "obj": [[f2b(v) for v in lib_obj[s].astype(np.float64).reshape(-1).tolist()] for s in range(S)]}
